@@ -82,6 +82,8 @@ package expressions
 // after a quoted literal ('...' or "...") the argument is kept even when it is empty (C09: the literal
 // evaluates to exactly its contents, also when there are none)
 //@   at store canHaveZeroLenStr#1 assert tree.statement.canHaveZeroLenStr
+// the syntax-only pass (exec == false, tree.p == nil) never asks for glob expansion, which would need a process
+//@   at store possibleGlob#* assert imp(!exec, !tree.statement.possibleGlob)
 
 // Variable tokens: a successfully parsed token is never empty (it starts with its sigil).
 // parseVarParenthesis / parseVarIndexElement: trusted (their results start with `$(` / `$name[`).
